@@ -4,8 +4,8 @@
 M  Toc.tla: the space of small spec-conforming TOCs (AddEntry) with the reference semantics as operators; TLC checks the
    internal sanity of the reference on every TOC of the space (tree, identities, link counts, chunk tables, streams) and two
    negative controls.
-R  3-way differential: every TOC TLC enumerates (TocGen, five configs: structure / features of one entry / trailing white
-   space / many-chunk files / names with inner and trailing dot elements) is materialised as a real blob by harness/metadata/verif_toc.go, opened by memory.NewReader (root module) and
+R  3-way differential: every TOC TLC enumerates (TocGen, six configs: structure / features of one entry / trailing white
+   space / many-chunk files / extreme modtimes / names with inner and trailing dot elements) is materialised as a real blob by harness/metadata/verif_toc.go, opened by memory.NewReader (root module) and
    db.NewReader (cmd module), the whole metadata.Reader API is walked and recorded;
    TocTrace: each store's record against the reference (which store left the reference - finding text, SPEC-DRIFT guard),
    TocMonitor: StoresAgree on the two records of one blob (the C05 formula; TLC -continue reports every line).
@@ -210,6 +210,50 @@ def c05_compare(run, cases, first, second, names, formula, what, conformance=Tru
     return dis, miss
 
 
+def c05_early(run, outp):
+    """clone taken immediately after NewReader (BigToc(n) of Toc.tla): the clones of the two stores must show the same (monitor),
+    and what the reference says (trace spec)"""
+    em = read_ndjson(outp + "_early_memory.ndjson")
+    ed = read_ndjson(outp + "_early_db.ndjson")
+    if not em or len(em) != len(ed):
+        raise Inconclusive("clone-early: %d / %d records" % (len(em), len(ed)))
+    mo = os.path.join(run.scratch, "mon_early.ndjson")
+    tr = os.path.join(run.scratch, "trace_early.ndjson")
+    with open(mo, "w") as g, open(tr, "w") as f:
+        for a, b in zip(em, ed):
+            g.write(json.dumps({"n": a["n"], "rep": a["rep"], "mem": a["early"], "db": b["early"]}) + "\n")
+            f.write(json.dumps(a) + "\n")
+            f.write(json.dumps(b) + "\n")
+    r = run.tlc("TocTrace", "TocTrace.cfg", None, 1, 600, extra={"trace.ndjson": tr})
+    if not r.completed or not r.lines("VDONE"):
+        raise Inconclusive("trace validation clone-early broke: %s\n%s" % (r.error or r.violated, "\n".join(r.out.splitlines()[-30:])))
+    miss = {}
+    for x in r.lines("VMISS"):
+        ln = int(x.split()[0])
+        miss.setdefault((ln - 1) // 2, []).append(("memory", "db")[(ln - 1) % 2])
+    m = run.tlc("TocMonitor", "TocMonitorEarly.cfg", None, 1, 600, extra={"trace.ndjson": mo}, args=("-continue",))
+    if m.error and not m.violated:
+        raise Inconclusive("monitor clone-early broke: %s\n%s" % (m.error, "\n".join(m.out.splitlines()[-30:])))
+    dis = sorted(int(x.split()[0]) - 1 for x in m.lines("VDIS"))
+    nviol = len(re.findall(r"Invariant EarlyCloneAgree is violated", m.out))
+    if (nviol > 0) != bool(dis):
+        raise Inconclusive("monitor clone-early: %d invariant reports but %d VDIS lines" % (nviol, len(dis)))
+    log("[monitor] clone-early BigToc(%d) x %d: EarlyCloneAgree false on %d (TLC: %d reports); conformance misses: %s" % (
+        em[0]["n"], len(em), len(dis), nviol, miss or "none"))
+    run.cov["evaluations"] += 2 * len(em)
+    run.cov["traces_validated_against_impl"] += 2 * sum(1 for i in range(len(em)) if i not in miss and i not in dis)
+    run.cov["stages"].append({"stage": "clone-early", "n": em[0]["n"], "reps": len(em), "disagree": len(dis), "conformance_miss": len(miss)})
+    if dis:
+        i = dis[0]
+        who = ", ".join(miss.get(i, [])) or "neither"
+        run.violation("monitor:EarlyCloneAgree:clone-early:BigToc", "EarlyCloneAgree false in %d of %d repetitions: a clone taken immediately after NewReader of "
+                      "BigToc(%d) shows memory=%s db=%s (leaves the reference: %s)" % (len(dis), len(em), em[i]["n"], json.dumps(em[i]["early"]), json.dumps(ed[i]["early"]), who),
+                      {"n": em[i]["n"], "memory": em[i]["early"], "db": ed[i]["early"]})
+    drift = [i for i in miss if i not in dis]
+    if drift:
+        run.inconclusive.append("SPEC-DRIFT clone-early: both stores agree but differ from EarlyCloneRef: %s" % json.dumps(em[drift[0]]))
+
+
 def c05_read_obs(path):
     obs = {}
     for d in read_ndjson(path):
@@ -233,6 +277,7 @@ def check(run):
     tocs += c05_vtocs(run, "Toc_gen_feat.cfg", None)
     tocs += c05_vtocs(run, "Toc_gen_ws.cfg", None)
     tocs += c05_vtocs(run, "Toc_gen_many.cfg", None)     # files of 3..12 chunks, chunk offsets 40*k and 2100*k (varint key order != numeric order)
+    tocs += c05_vtocs(run, "Toc_gen_mtime.cfg", None)    # modtimes outside 1678..2262, +09:00 zone, sub-second, zero time
     tocs += c05_vtocs(run, "Toc_gen_spell.cfg", None)    # names with inner / trailing dot elements: a/.  a/zz/..  a/./b  a//b  a/b/../b
     if thorough:
         tocs += c05_vtocs(run, "Toc_gen_struct.cfg", {"EPaths": ALLP, "MaxEntries": "3", "ETypes": '{"dir", "reg", "hardlink"}'})
@@ -252,15 +297,17 @@ def check(run):
     inp = os.path.join(run.scratch, "cases.json")
     write_json(inp, list(cases.values()))
     outp = os.path.join(run.scratch, "obs")
-    env = {"VERIF_IN": inp, "VERIF_OUT": outp}
-    run.go_driver("", "./metadata/memory/", OVERLAY, "^TestVerifC05Walk$", env=env, race=False, timeout=2400)
-    run.go_driver("cmd", "./containerd-stargz-grpc/db/", OVERLAY, "^TestVerifC05Walk$", env=env, race=False, timeout=2400)
+    env = {"VERIF_IN": inp, "VERIF_OUT": outp, "VERIF_C05_BIG": "20000" if thorough else "6000", "VERIF_C05_REPS": "6" if thorough else "3"}
+    run.go_driver("", "./metadata/memory/", OVERLAY, "^TestVerifC05(Walk|CloneEarly)$", env=env, race=False, timeout=2400)
+    run.go_driver("cmd", "./containerd-stargz-grpc/db/", OVERLAY, "^TestVerifC05(Walk|CloneEarly)$", env=env, race=False, timeout=2400)
     mem = c05_read_obs(outp + "_memory.ndjson")
     db = c05_read_obs(outp + "_db.ndjson")
     c05_compare(run, cases, mem, db, ("memory", "db"), "StoresAgree", "stores")
     run.cov["distinct_nontrivial"] += sum(1 for c in cases.values() if len(c["ents"]) >= 2 or any(not c05_default(e) for e in c["ents"]))
     for cid in list(cases)[len(cases) // 2:][:2]:
         run.add_samples([{"toc": cases[cid], "memory": mem[cid], "db": db[cid]}], limit=2)
+    # ---------------------------------------------------------------- clone-early: BigToc(n), Clone immediately after NewReader
+    c05_early(run, outp)
     # ---------------------------------------------------------------- T: concurrent layers in one bolt database
     if os.environ.get("VERIF_C05_SKIP_T"):     # development aid (mutant runs): R only
         run.inconclusive.append("T stage skipped by VERIF_C05_SKIP_T") if not run.violations else None
